@@ -87,6 +87,7 @@ func startRedisProxyLimit(seeds []string, limit uint32, events *[]string) *simPr
 }
 
 func runC20(r *rng) (string, string) {
+	loadFactor = measureLoad() // the machine's load may have changed since the process started
 	limit := []uint32{0, 0, 2, 3}[r.intn(4)]
 	n := 2
 	cl := newSimCluster(n)
@@ -103,7 +104,7 @@ func runC20(r *rng) (string, string) {
 	sp.waitSlotsLoaded(1)
 	waitFor(2*time.Second, func() bool { return sp.counter("downstream.cx_destroy_total") >= 1 }) // the launcher's probe
 	var open []*simClient
-	finished := 1 // connections that have ended so far (the probe)
+	finished := 1                                      // connections that have ended so far (the probe)
 	ask := func(sc *simClient, v *wv) (string, bool) { // returns s|f, alive
 		if sc.send(v.bytes(), nil) != nil {
 			return "", false
